@@ -598,6 +598,31 @@ def h_unit_extract(ns: int, nl: int, ps: int, pl: int, ss: int, sl_: int, hasp: 
     assert disjoint(spans)
 
 
+def h_unit_extract_prefixes(ns: int, nl: int, ps: int, pl: int, pl2: int):
+    """one number and TWO prefix-unit matches before it, the second being the tail of the first ('hk $' and '$' in 'hk $ 7'): the entity starts at
+    the earliest prefix that reaches the number -- the longest listed spelling wins (C05: 'any spelling listed for a unit')"""
+    n = len(USRC)
+    assume(0 <= ns and 1 <= nl and ns + nl <= n)
+    assume(0 <= ps and 2 <= pl and ps + pl <= ns and 1 <= pl2 and pl2 < pl)
+    ns, nl, ps, pl, pl2 = int(ns), int(nl), int(ps), int(pl), int(pl2)
+    ps2 = ps + pl - pl2
+    _NX.spans = [(ns, nl)]
+    _PM.hits = [(ps, pl), (ps2, pl2)]          # as the real matcher delivers them: sorted by start
+    _SM.hits = []
+    UEX.max_prefix_match_len = n
+    out = UEX.extract(USRC)
+    long_text, short_text = USRC[ps:ps + pl], USRC[ps2:ps2 + pl2]
+    gap_blank = USRC[ps + pl:ns].strip() == ''
+    spans = [(er.start, er.length) for er in out]
+    for er in out:
+        assert er.text == USRC[er.start:er.start + er.length]
+    if gap_blank and long_text.strip() == long_text:
+        assert spans == [(ps, ns + nl - ps)], ('the longer prefix spelling must win', spans)
+    elif gap_blank and short_text.strip() == short_text:
+        assert spans == [(ps2, ns + nl - ps2)], spans
+    assert disjoint(spans)
+
+
 def t_unit_extract(ns: int, nl: int, ps: int, pl: int, ss: int, sl_: int, hasp: bool, hass: bool):
     n = len(USRC)
     assume(0 <= ns and 1 <= nl and ns + nl <= n and hass and not hasp and ns + nl <= ss and 1 <= sl_ and ss + sl_ <= n)
